@@ -433,7 +433,7 @@ Print Assumptions c03_flow_nonvacuous.
 (** The expression that sizes one chunk ("the input, the chunk-size limit and the largest chunk that fits the output, whichever is
     smallest") is translated from src/body.rs::write_chunk on every run (theories/Gen.v, FRAGMENTS of tools/rs2coq.py);
     proofs/Gen_equiv_frag.v proves it equal to that minimum for all arguments and to what the model's [write_chunk] computes. *)
-From Hoot.proofs Require Import Gen_equiv_frag.
+From Hoot.proofs Require Import Gen_equiv_frag_c03.
 Theorem c03_code_chunk_size : forall input_len max_chunk available,
   gen_chunk_to_write input_len max_chunk available = N.min (N.min input_len max_chunk) available.
 Proof. exact gen_chunk_to_write_spec. Qed.
@@ -454,7 +454,7 @@ Print Assumptions c03_code_write_chunk_is_model.
     theorem of this file about what [writer_write] emits (c03_call .. c03_valid) is a statement about the code as it is in the
     repository now.  Trusted: the translator (incl. the all-or-nothing reading of Writer::try_write over std::io::Cursor). *)
 From Hoot Require Import GenLib Gen2.
-From Hoot.proofs Require Import Gen2_equiv_body Gen2_transport.
+From Hoot.proofs Require Import Gen2_equiv_rel Gen2_equiv_writer Gen2_transport_write.
 Theorem c03_code_write_equiv : forall e input avail out0,
   wr_rel avail out0 (gen_bw_write SChunked e input avail out0) (writer_write {| w_mode := SChunked; w_ended := e |} input avail).
 Proof. intros. apply gen_bw_write_equiv. exact I. Qed.
